@@ -265,6 +265,11 @@ func c19TreeCases() []c19TreeCase {
 		{Name: "external-dir-linking-to-itself", Nodes: []gen.NodeSpec{l("out", "../outside/d")}, Out: []gen.NodeSpec{d("d"), l("d/me", "../d"), f("d/f")}},
 		{Name: "external-dir-linking-to-its-parent", Nodes: []gen.NodeSpec{l("out", "../outside/d")}, Out: []gen.NodeSpec{d("d"), l("d/up", ".."), f("d/f")}},
 		{Name: "external-dirs-linking-to-each-other", Nodes: []gen.NodeSpec{l("out", "../outside/p")}, Out: []gen.NodeSpec{d("p"), d("q"), l("p/toq", "../q"), l("q/top", "../p"), f("p/f"), f("q/g")}},
+		// cycles whose links are spelled through a symlinked directory name (the
+		// real paths repeat although the spelled ones never do)
+		{Name: "external-cycle-through-an-aliased-directory", Nodes: []gen.NodeSpec{l("out", "../outside/alias/ext"), f("a")}, Out: []gen.NodeSpec{d("real/ext"), l("alias", "real"), l("real/ext/back", "../../alias/ext"), f("real/ext/f")}},
+		{Name: "external-cycle-through-two-aliases", Nodes: []gen.NodeSpec{l("out", "../outside/a1/ext")}, Out: []gen.NodeSpec{d("real/ext"), l("a1", "real"), l("a2", "a1"), l("real/ext/back", "../../a2/ext"), f("real/ext/f")}},
+		{Name: "in-tree-directory-reached-by-its-alias", Nodes: []gen.NodeSpec{d("real/sub"), l("alias", "real"), l("real/sub/again", "../../alias/sub"), f("real/sub/f")}},
 		{Name: "link-to-parent-of-src", Nodes: []gen.NodeSpec{l("up", ".."), f("a")}},
 		{Name: "link-to-root-of-filesystem", Nodes: []gen.NodeSpec{l("slash", "/c19t/case")}},
 		{Name: "link-to-external-fifo", Nodes: []gen.NodeSpec{l("pipe", "../outside/fifo")}, Out: []gen.NodeSpec{{Path: "fifo", Kind: "fifo", Mode: 0644}}},
